@@ -29,7 +29,7 @@ def describe(tier):
                                                                    "FullStokes f64 Fortran order", "Baseband c128 with NaN/inf",
                                                                    "Intensity f32 strided channels", "DualPol c128 Dask-wrapped buffer",
                                                                    "Signal f64 1-D without start"],
-                   "operations": len(catalogue.OPS) + 14},
+                   "operations": len(catalogue.OPS) + len(ARG_OPS)},
         "alphabet": [n for n, _, _ in catalogue.OPS] + [n for n, _, _, _ in ARG_OPS],
         "rule": "state = pool of real signals (de-duplicated on type, shape, dtype, data bytes, metadata); transition = one real "
                 "operation on one member; invariant = byte snapshot (data, dtype, shape, strides, writeable flag, public attributes, "
@@ -90,7 +90,7 @@ def mk_initial():
     out.append(("baseband c128 NaN/inf", factory.make("BasebandSignal", xn, rate_name="1MHz", start_name="iso", fc=400 * u.MHz,
                                                       align="top"), [xn]))
     b32 = rng.normal(size=(12, 6, 2)).astype(np.float32)
-    out.append(("intensity f32 strided channels", factory.make("IntensitySignal", b32[:, ::2], rate_name="1Hz", start_name="none",
+    out.append(("intensity f32 strided channels", factory.make("IntensitySignal", b32[:, ::2], rate_name="1Hz", start_name="iso",
                                                                fc=327 * u.MHz, chan_bw=3.125 * u.MHz), [b32]))
     xd = rng.normal(size=(12, 2, 2)) + 1j * rng.normal(size=(12, 2, 2))
     out.append(("dualpol c128 dask-wrapped", factory.make("DualPolarizationSignal", da.from_array(xd, chunks=(12, 1, 2)),
